@@ -13,7 +13,7 @@ from vf.xmodel import Schema, Rop, build_api, build_loader
 
 SHARDS = {'quick': 16, 'thorough': 32}
 TIMEOUT = {'quick': 900, 'thorough': 5400}
-MUST_HIT = ['SortOracle.after-delete-inside-a-chain', 'SortOracle.very-long-chain', 'SortOracle.rejected-calls-in-history', 'SortOracle.same-set-sorted-before-and-after-edits', 'SortOracle.some-whole-chains', 'SortOracle.ring-with-outsiders', 'SortOracle.other-reflexive-associations', 'SortOracle.after-edit-history', 'SortOracle.mixed-subset-termination', 'SortOracle.chains', 'SortOracle.ring', 'StepBudget.guarded-calls', 'SortOracle.subset-termination', 'SortOracle.results-changed-by-the-caller', 'SortOracle.empty', 'SortOracle.pairs-related-across-either-phrase']
+MUST_HIT = ['SortOracle.earlier-result-sorted-after-edits', 'SortOracle.after-delete-inside-a-chain', 'SortOracle.very-long-chain', 'SortOracle.rejected-calls-in-history', 'SortOracle.same-set-sorted-before-and-after-edits', 'SortOracle.some-whole-chains', 'SortOracle.ring-with-outsiders', 'SortOracle.other-reflexive-associations', 'SortOracle.after-edit-history', 'SortOracle.mixed-subset-termination', 'SortOracle.chains', 'SortOracle.ring', 'StepBudget.guarded-calls', 'SortOracle.subset-termination', 'SortOracle.results-changed-by-the-caller', 'SortOracle.empty', 'SortOracle.pairs-related-across-either-phrase']
 MUST_REACH = ['xtuml/meta.py:sort_reflexive', 'xtuml/meta.py:sort_reflexive.<locals>.sequence_generator']
 ANCHORS = MUST_REACH
 MIN_NONTRIVIAL = {'quick': 500, 'thorough': 500}
@@ -128,7 +128,7 @@ HITS = {}
 _pairs = [0]
 
 
-def call_sort(budget, qs, n, phrase):
+def call_sort(budget, qs, n, phrase, keep=False):
     import xtuml
     from vf.ctx import cpu_budget, BudgetExceeded
     budget.limit = 16 * n + 64
@@ -144,6 +144,8 @@ def call_sort(budget, qs, n, phrase):
         budget.limit = None
     if not isinstance(res, xtuml.QuerySet):
         raise Mismatch('result/type', 'returned %s' % type(res).__name__)
+    if keep:
+        return out, res
     if res is not qs:
         # the result belongs to the caller, who goes on using it: whatever is put into it or taken out of it
         # must not show in any later result
@@ -203,6 +205,10 @@ def check_edited(ctx, budget, rng, n, route):
     if not ring and rng.random() < 0.6:
         ctx.hit('SortOracle.same-set-sorted-before-and-after-edits')
         verify_chain_set(ctx, budget, insts, n, tuple(a), order, qs)
+    # a result of a sort before the edits is kept as it came back; after the edits it is itself the set that is sorted
+    earlier = None
+    if not ring and rng.random() < 0.5:
+        earlier = call_sort(budget, qs, n, rng.choice(('succeeds', 'precedes')), keep=True)[1]
     for (x, y) in sorted(la - lb):
         xtuml.unrelate(insts[x], insts[y], 1, 'precedes')
     for (x, y) in sorted(lb - la):
@@ -236,6 +242,10 @@ def check_edited(ctx, budget, rng, n, route):
         return a, b
     ctx.hit('SortOracle.after-edit-history')
     verify_chains(ctx, budget, insts, n, tuple(b), order, qs)
+    if earlier is not None and earlier is not qs:
+        ctx.hit('SortOracle.earlier-result-sorted-after-edits')
+        pos = dict((id(x), i) for i, x in enumerate(insts))
+        verify_chain_set(ctx, budget, insts, n, tuple(b), [pos[id(x)] for x in earlier], earlier)
     if n >= 3 and rng.random() < 0.4:
         # a member is deleted: what is left of its chain are two whole chains (or one, or none)
         x = rng.randrange(n)
